@@ -21,8 +21,11 @@ theorem mul_div_255_exact (c a : Nat) (hc : c < 256) (ha : a < 256) :
     mul_div_255 c a = mulExact 255 c a ∧ mul_div_255_ok c a := by
   have h : c * a ≤ 255 * 255 := Nat.mul_le_mul (by omega) (by omega)
   unfold mul_div_255 mul_div_255_ok mulExact
+  -- whichever order the source multiplies in: one name for the product, then pure linear arithmetic
+  have ecomm : a * c = c * a := Nat.mul_comm a c
+  try simp only [ecomm]
   generalize c * a = t at *
-  simp (disch := omega) only [Nat.mod_eq_of_lt]
+  try simp (disch := omega) only [Nat.mod_eq_of_lt]
   constructor <;> omega
 
 /-- ∀ 16-bit colour, alpha: `mul_div_65535` is round-half-up of `c·a/65535` and no intermediate overflows. -/
@@ -30,8 +33,11 @@ theorem mul_div_65535_exact (c a : Nat) (hc : c < 65536) (ha : a < 65536) :
     mul_div_65535 c a = mulExact 65535 c a ∧ mul_div_65535_ok c a := by
   have h : c * a ≤ 65535 * 65535 := Nat.mul_le_mul (by omega) (by omega)
   unfold mul_div_65535 mul_div_65535_ok mulExact
+  -- whichever order the source multiplies in: one name for the product, then pure linear arithmetic
+  have ecomm : a * c = c * a := Nat.mul_comm a c
+  try simp only [ecomm]
   generalize c * a = t at *
-  simp (disch := omega) only [Nat.mod_eq_of_lt]
+  try simp (disch := omega) only [Nat.mod_eq_of_lt]
   constructor <;> omega
 
 /-! ### reciprocal tables -/
